@@ -2050,7 +2050,23 @@ mod hs {
 		fc: String,
 	}
 
-	const U64_VALS: [u64; 33] = [
+	/// first / last second chrono's DateTime can represent (timestamps are i64 fields read through the
+	/// same 8-byte reader): arithmetic on a timestamp next to them overflows inside the time library
+	const TS_MIN: i64 = -8_334_601_228_800;
+	const TS_MAX: i64 = 8_210_266_876_799;
+	const U64_VALS: [u64; 45] = [
+		TS_MIN as u64,
+		(TS_MIN + 1) as u64,
+		(TS_MIN + 299) as u64,
+		(TS_MIN + 300) as u64,
+		(TS_MIN + 43_200) as u64,
+		(TS_MIN - 1) as u64,
+		TS_MAX as u64,
+		(TS_MAX - 1) as u64,
+		(TS_MAX - 299) as u64,
+		(TS_MAX - 300) as u64,
+		(TS_MAX - 43_200) as u64,
+		(TS_MAX + 1) as u64,
 		(1 << 63) + 1,
 		(1 << 63) + 2,
 		(1 << 63) + 4,
